@@ -93,7 +93,7 @@ StrBodies(d) ==
           UNION {QB(q, {Pair(P[i][1], P[i][2], q) : i \in 1..Len(P)}) : q \in Quotes}
           \cup UNION {QB(q, {<<AltEl(a, q), PrefEl(b, q)>> : a \in Body(ClassNames), b \in ClassNames}
                             \cup {<<PrefEl(a, q), AltEl(b, q)>> : a \in Body(ClassNames), b \in ClassNames}) : q \in {"sq", "tpl"}}
-          \cup UNION {QB(q, Seqs3(q, Reduced2) \cup Seqs4(q, Hot)) : q \in Quotes})
+          \cup UNION {QB(q, Seqs3(q, Reduced) \cup EveryNth(Seqs3(q, Reduced2), 4) \cup Seqs4(q, Hot)) : q \in Quotes})
 
 (* contexts of a case: quick = expr, strict code (sq/dq) and one more in rotation; thorough = all for bodies of <= 2 elements *)
 CtxNames(q, quickOnly) == {c.name : c \in {x \in Contexts : q \in x.quotes /\ (quickOnly => x.quick)}}
@@ -105,7 +105,7 @@ CtxsFor(i, s, q) ==
       \* the strict context is the expr context behind a `use strict` directive: it stands for both unless the body is sloppy-only
       base == IF q = "tag" THEN {"tag"} ELSE IF q = "tpl" \/ goal = "sloppy" THEN {"expr"} ELSE {"strict"}
       rot == IF Len(R) = 0 THEN {} ELSE {R[((i + Seed) % Len(R)) + 1]} IN
-  {n \in (IF Size >= 3 /\ Len(s) <= 2 THEN CtxNames(q, FALSE) ELSE base \cup rot) : ok(n)}
+  {n \in (IF Size >= 3 /\ Len(s) <= 2 /\ (\A k \in 1..Len(s) : s[k] = PrefEl(s[k][1], q)) THEN CtxNames(q, FALSE) ELSE base \cup rot) : ok(n)}
 
 StrCase(i, s, q) ==
   [family |-> "str", quote |-> q, elems |-> s, units |-> UnitsOf(s, q, 1), goal |-> Goal(s, q),
